@@ -14,16 +14,25 @@ Open Scope Qc_scope."""
 
 ASSUMPTIONS = [
     "the model takes the lists returned by the real die.floorplanning_rectangles() and the modules of the real Netlist "
-    "(observed just before the call) as its input; the die decomposition is C01's business, die refinement C11's",
-    "math.sqrt is a section variable with contract 0 <= s /\\ s*s = a; the harness instantiates it by a finite table of the exact "
-    "roots of the perfect-square areas it generates (computed with Fractions, not taken from the implementation)",
-    "the 1e-6 tolerance of _detect_fixed_rectangles and the class-wide area epsilon are parameters of the model; the harness "
-    "passes the exact rational of the float 1e-6 and the value read back from Rectangle.area_epsilon()",
-    "coordinates are dyadic so every + - * the code performs is exact; a ratio is a sum of quotients overlap/area: compared "
-    "exactly when the cell area is a power of two, else within (2 + number of rectangles) roundings of 2^-53",
-    "theorems are about exact arithmetic; the oracle allows 2^-40 relative on ratios and areas",
+    "(observed just before the call) as its input; the die decomposition is C01's business, die refinement C11's; a 'direct' "
+    "stream calls Allocation(cells).initial_allocation(netlist) on cell lists that are not a die decomposition so that the "
+    "assertions of _detect_fixed_rectangles are exercised",
+    "math.sqrt is a section variable required to be exact (0 <= s, s*s = a) at the areas of the modules without rectangles; the "
+    "harness instantiates it by a finite table of the exact roots of the perfect-square areas it generates (computed with "
+    "Fractions, not taken from the implementation)",
+    "the 1e-6 tolerance of _detect_fixed_rectangles, the 1e-9 rounding allowance of the repaired ratio and the class-wide area "
+    "epsilon are parameters of the model; the harness passes the exact rationals of the floats 1e-6, 1e-9 and the value read "
+    "back from Rectangle.area_epsilon()",
+    "exact stream: coordinates are dyadic so every + - * the code performs is exact; a ratio is a sum of quotients overlap/area: "
+    "compared exactly when the cell area is a power of two, else within (2 + number of rectangles) roundings of 2^-53; the oracle "
+    "allows 2^-40",
+    "decimal stream (multiples of 0.1): direct oracle only, tolerance 1e-9 on ratios, areas and on what counts as an overlap "
+    "(a module listed in an abutting cell with a ratio of rounding-noise size, ~1e-16, is tolerated)",
+    "theorems are about exact arithmetic; the model mirrors the code after fixes/C03-ratio-rounding.diff (under the theorems' "
+    "hypotheses every exact ratio is at most 1, so the allowance never changes a value)",
     "'area of its shape lying on refinable or fixed cells' is read respectively: refinable cells for soft and hard modules, "
     "its own (fixed) cells for a fixed module - the part of a soft module lying on a fixed module's cell is not allocated to it",
+    "the order of the cells and of the entries of a map is compared with the model (the code's order); the oracle does not demand it",
 ]
 
 TAGS = ["#", "#", "dsp", "BRAM", "r_1"]
@@ -598,7 +607,7 @@ def nontrivial(case):
 
 
 def run(ctx, out, replay=None):
-    n = 800 if ctx.quick() else 12000
+    n = 2000 if ctx.quick() else 15000
     out.rule = ("dies on a coarse dyadic lattice (0-6 blockages / specialised regions / fixed-module rectangles, patterns as in "
                 "C01; clean dies also gridded with initial_grid), optionally refined with split_refinable_regions; netlists of "
                 "0-4 movable modules (soft with a centre and a perfect-square area -> square, possibly sticking out of the die or "
